@@ -14,16 +14,15 @@ Definition is_half (md : mode) : bool := match md with MHalfEven | MHalfAway => 
 Definition calls_ulp (md : mode) : bool := match md with MAway | MUp | MDown => true | _ => false end.
 Definition is_halfeven (md : mode) : bool := match md with MHalfEven => true | _ => false end.
 
-(** F06 / F07 are open; [sig] is the normalised significand.  F05 (known_halfeven) and F08
-    (known_unlimited) are repaired: their class predicates are kept only to state the refutations
-    of the pinned bodies and are no longer part of [known_float]. *)
+(** F06 is open; [sig] is the normalised significand.  F05 (known_halfeven), F07 (known_powbase) and
+    F08 (known_unlimited) are repaired: their class predicates are kept only to state the refutations
+    of the earlier bodies and are no longer part of [known_float]. *)
 Definition known_unlimited (md : mode) (p : Z) : bool := (p =? 0) && calls_ulp md.
 Definition known_oddbase (B : Z) (md : mode) (p : Z) : bool := negb (p =? 0) && is_half md && Z.odd B.
 Definition known_halfeven (md : mode) (p : Z) : bool := negb (p =? 0) && is_halfeven md.
 Definition known_powbase (p sig : Z) : bool := negb (p =? 0) && (Z.abs sig =? 1).
 
-Definition known_float (B : Z) (md : mode) (p sig : Z) : bool :=
-  known_oddbase B md p || known_powbase p sig.
+Definition known_float (B : Z) (md : mode) (p sig : Z) : bool := known_oddbase B md p.
 
 (** F04 (repaired)  from_f32 4c000000 (2^25): the pinned macro's interval is f +- 1/2, the true one
     (2^25 - 1, 2^25 + 2); the repaired macro computes the true one *)
@@ -53,18 +52,43 @@ Lemma simplest_from_float_oddbase_refuted :
   simplest_from_float_spec 3 MHalfEven 1 1 (-1) = Ok (Some (1, 3)).
 Proof. repeat split; vm_compute; reflexivity. Qed.
 
-(** F07  from_float 3 Away 1 1 1  (3 with one ternary digit, rounding away from zero: only (2, 3]
-    rounds to 3, the code takes (0, 3]) *)
+(** F07 (repaired)  from_float 3 Away 1 1 1  (3 with one ternary digit, rounding away from zero: only
+    (2, 3] rounds to 3; the code before the repair took (0, 3] and answered 1, the repaired
+    error_bounds lowers the bound on the side of zero of a power of the base by one digit) *)
 Lemma simplest_from_float_powbase_refuted :
-  known_float 3 MAway 1 1 = true /\
-  simplest_from_float_asis 3 MAway 1 1 1 = Ok (Some (1, 1)) /\
+  known_powbase 1 1 = true /\ known_float 3 MAway 1 1 = false /\
+  simplest_from_float_r2 3 MAway 1 1 1 = Ok (Some (1, 1)) /\
+  simplest_from_float_asis 3 MAway 1 1 1 = Ok (Some (3, 1)) /\
   simplest_from_float_spec 3 MAway 1 1 1 = Ok (Some (3, 1)).
+Proof. repeat split; vm_compute; reflexivity. Qed.
+
+(** F07, half modes: 10^1 with one decimal digit, HalfAway: the preimage is [9.5, 15); the code before
+    the repair took [5, 15) and answered 5, which rounds to 5 *)
+Lemma simplest_from_float_powbase_half_refuted :
+  simplest_from_float_r2 10 MHalfAway 1 1 1 = Ok (Some (5, 1)) /\
+  simplest_from_float_asis 10 MHalfAway 1 1 1 = Ok (Some (10, 1)) /\
+  simplest_from_float_spec 10 MHalfAway 1 1 1 = Ok (Some (10, 1)) /\
+  round_to_prec 10 MHalfAway 1 (5, 1) = (5, 1).
 Proof. repeat split; vm_compute; reflexivity. Qed.
 
 (** F08 (repaired)  from_float a Away 0 7b -1  (12.3 with unlimited precision) *)
 Lemma simplest_from_float_unlimited_refuted :
   known_unlimited MAway 0 = true /\ known_float 10 MAway 0 123 = false /\
   simplest_from_float_pinned 10 MAway 0 123 (-1) = Panic UnlimitedPrecision /\
+  simplest_from_float_asis 10 MAway 0 123 (-1) = Ok (Some (123, 10)) /\
+  simplest_from_float_spec 10 MAway 0 123 (-1) = Ok (Some (123, 10)).
+Proof. repeat split; vm_compute; reflexivity. Qed.
+
+(** F09 (repaired)  from_float a Away 0 7b -1  (12.3 with unlimited precision): between the repair of the
+    zero shortcuts of FBig + and - (they round the surviving operand into the result precision) and
+    the repair of simplest_from_float, the bounds f - 0 and f + 0 were formed with the precision 1, so
+    the float itself was rounded to ONE digit under its mode; [simplest_from_float_zero_shortcut] is
+    that state of the code at unlimited precision (both end points equal, simplest_in returns them) *)
+Definition simplest_from_float_zero_shortcut (B : Z) (md : mode) (sig ex : Z) : result (option frac) :=
+  Ok (Some (round_to_prec B md 1 (scaled B sig ex 1))).
+
+Lemma simplest_from_float_unlimited_rounded_refuted :
+  simplest_from_float_zero_shortcut 10 MAway 123 (-1) = Ok (Some (20, 1)) /\
   simplest_from_float_asis 10 MAway 0 123 (-1) = Ok (Some (123, 10)) /\
   simplest_from_float_spec 10 MAway 0 123 (-1) = Ok (Some (123, 10)).
 Proof. repeat split; vm_compute; reflexivity. Qed.
